@@ -12,7 +12,8 @@ RULE = ("the real binary (serial and -j 2..4) with the scripted fake engine: for
         "for EVERY k (thorough) / a spread of k incl. the first and last three (quick) - and delays its own reply by a grace interval; checks: exit status != 0, "
         "no test-file session started later than signal + grace, every engine session reaches end-of-file, every CREATE has its DROP, JUnit report present "
         "with exactly one case per selected file, termination within the timeout, and the time-ordered engine log with the Cancel event inserted is accepted "
-        "by the observer automaton; plus --fail-fast with the first failing file at every position; distinct = distinct (scenario, mode, k); non-trivial = every interrupted run")
+        "by the observer automaton; SIGINT delivered 300 ms after a reply, while the file is inside a `sleep 1500ms` record or a `sleep 1.5` system command: exit within 1.1 s of the signal, nothing sent afterwards; "
+        "plus --fail-fast with the first failing file at every position; distinct = distinct (scenario, mode, k); non-trivial = every interrupted run")
 ASSUMPTIONS = ["partial: signal delivery latency, the window between signal arrival and the token being set, the bounded-time clause and kill_on_drop are runtime "
                "behaviour - observed under generous timeouts (grace 600 ms, allowance 400 ms, 60 s limit), not proved"]
 
@@ -31,6 +32,20 @@ def generate(rng, tier):
         files, rules, truth, info = clifam.make_set(rng, rng.randint(2, 6), kinds=["pass"] if i % 2 == 0 else ["pass", "pass", "pass", "fail"], parallel=parallel)
         rules = [r for r in rules if "delay_ms" not in r] + [{"match": "F0", "delay_ms": 10}]
         sets.append({"files": files, "rules": rules, "truth": truth, "info": info, "jobs": rng.randint(2, 4) if parallel else None, "meta": {"kind": "sigint"}})
+    # Ctrl-C while a file is inside a pause that is not a database request: a `sleep` record or a system command
+    for i in range(4 if tier == "quick" else 40):
+        parallel = i % 2 == 1
+        pause = ["sleep 1500ms\n\n", "system ok\nsleep 1.5\n\n"][(i // 2) % 2]
+        files, truth, info = [], {}, {}
+        for j in range(rng.randint(1, 3)):
+            tag = "F%02d" % j
+            path = "t/p%02d.slt" % j
+            body = "control substitution on\n\nstatement ok\nselect %s_1 $__DATABASE__\n\n" % tag
+            body += pause if j == 0 else ""
+            body += "statement ok\nselect %s_2 $__DATABASE__\n\n" % tag
+            files.append([path, body]); truth[path] = "ok"; info[path] = {"tag": tag, "kind": "pass"}
+        rules = [{"match": "F00_1", "signal": "INT", "after_reply_ms": 300}]
+        sets.append({"files": files, "rules": rules, "truth": truth, "info": info, "jobs": 2 if parallel else None, "meta": {"kind": "sigpause", "pause": pause.split("\n")[0]}})
     for i in range(4 if tier == "quick" else 60):
         parallel = i % 2 == 0
         n = rng.randint(2, 6)
@@ -124,6 +139,26 @@ def execute(cases, tier):
                     spec = spec or "contradicts L1: file without a status: %r" % got
             if spec:
                 disagreements.append({"case": c, "impl": {"rc": r["rc"], "status": got, "stderr": r["stderr"][-400:]}, "model": None, "spec": spec, "broken": "corr_C19_cancel"})
+            continue
+        if c["meta"]["kind"] == "sigpause":
+            r, ju = run(c, [], [])
+            nruns += 1
+            cats["sigint during %s mode=%s" % (c["meta"]["pause"].split()[0], "par" if c["jobs"] else "serial")] += 1
+            keys.add(repr((c["files"], c["jobs"], "pause")))
+            sig = next((e for e in r["events"] if e["ev"] == "SIGNAL"), None)
+            spec = None
+            if sig is None:
+                spec = "harness: the delayed signal was not sent"
+            else:
+                spec = check_release(c, r, ju, sig["t"], "Ctrl-C during `%s`" % c["meta"]["pause"])
+                took = (r["t_end"] - sig["t"]) / 1e6
+                if spec is None and took > 1100:
+                    spec = "contradicts L1 (bounded time): the CLI exited %.0f ms after Ctrl-C arrived during `%s` (the pause alone lasts 1500 ms)" % (took, c["meta"]["pause"])
+                if spec is None and any(e["ev"] == "SQL" and "F00_2" in e.get("sql", "") for e in r["events"]):
+                    spec = "contradicts L1 (C19_no_new_work): the record after the pause was sent to the database after Ctrl-C"
+            if spec:
+                disagreements.append({"case": c, "impl": {"rc": r["rc"], "stderr": r["stderr"][-400:], "events": r["events"][-12:]}, "model": None,
+                                      "spec": spec, "broken": "corr_C19_cancel"})
             continue
         base, _ = run(c, [], [])
         nruns += 1
